@@ -157,7 +157,7 @@ pub fn run(ctx: &mut Ctx) {
     // --- single requests whose size sits on or next to a power of two / a multiple of 1024, followed by a short request
     {
         let mut pb = ctx.prng("block_sizes");
-        let sizes = [255usize, 256, 257, 511, 512, 513, 1023, 1024, 1025, 2047, 2048, 2049, 3072, 4096, 4097, 8192, 65535, 65536, 65537];
+        let sizes = [255usize, 256, 257, 511, 512, 513, 1023, 1024, 1025, 2047, 2048, 2049, 3072, 4096, 4097, 8192, 65535, 65536, 65537, (1 << 20) - 1, 1 << 20, (1 << 20) + 37, (1 << 21) + 5, (1 << 24) + 1];
         for (si, n) in sizes.iter().enumerate() {
             let key: [u8; 16] = pb.arr();
             let iv: [u8; 16] = pb.arr();
